@@ -1794,4 +1794,256 @@ def _c03_registry(add, tier, TO):
     q("c03_arc_atomic_2p2_1l", "thorough", "multi_arc_atomic", 4, 2, 1, [2, 1], [1])
 
 
-EXTRA_REGISTRIES = [("C13", _c13_registry), ("C14", _c14_registry), ("C08", _c08_registry), ("C18", _c18_registry), ("C19", _c19_registry), ("C16", _c16_registry), ("C04", _c04_registry), ("C05", _c05_registry), ("C07", _c07_registry), ("C03", _c03_registry)]
+# =========================================================================================================
+# C09: the log (mmap) topic -- full ordered replay; old/new subscriptions partition the history
+MM_FILE = "src/ogre_std/ogre_queues/log_topics/mmap_meta.rs"
+
+
+def _log_helpers():
+    """pseudo-MIR thread programs of a listener: subscribe, consume `kc` times concurrently with the publishers, wait until the
+    publishers have returned, drain `kd` times. Results are returned as one tuple (Option<u32>...)."""
+    out = []
+    def consume_block(bb, sub_local, self_type, res_local, nxt):
+        # res = consume(&sub, getter, report_empty, report_len) ; res_local = value behind the yielded reference
+        return """
+    bb%d: {
+        _90 = @%s:consume#%s(copy %s, copy _2, copy _3, copy _4) -> [return: bb%d, unwind continue];
+    }
+
+    bb%d: {
+        %s = __verif::opt_deref(move _90) -> [return: bb%d, unwind continue];
+    }
+""" % (bb, MM_FILE, self_type, sub_local, bb + 1, bb + 1, res_local, nxt)
+    for kind in ("joined", "newonly", "split"):
+        for kc in (0, 1, 2):
+            for kd in (2, 3, 4):
+                name = "__verif::log_%s_%d_%d" % (kind, kc, kd)
+                nres = (kc + kd) if kind != "split" else (kc + kd + kd + 1)
+                lets = "".join("    let mut _%d: Option<u32>;\n" % (20 + i) for i in range(nres))
+                body = ""
+                bb = 1
+                if kind == "split":
+                    sub_fn = "subscribe_to_separated_old_and_new_events"
+                    pre = """
+    bb0: {
+        _5 = @%s:%s(copy _1) -> [return: bb1, unwind continue];
+    }
+
+    bb1: {
+        _6 = &(_5.0: MMapMetaFixedSubscriber);
+        _7 = &(_5.1: MMapMetaDynamicSubscriber);
+        _8 = copy ((_5.0: MMapMetaFixedSubscriber).2: usize);
+        goto -> bb2;
+    }
+""" % (MM_FILE, sub_fn)
+                    bb = 2; r = 20
+                    for i in range(kc):          # the NEW stream is polled concurrently with the publishers
+                        body += consume_block(bb, "_7", "MMapMetaDynamicSubscriber", "_%d" % r, bb + 2); bb += 2; r += 1
+                    body += "\n    bb%d: {\n        _91 = __verif::await_others() -> [return: bb%d, unwind continue];\n    }\n" % (bb, bb + 1); bb += 1
+                    for i in range(kd):
+                        body += consume_block(bb, "_7", "MMapMetaDynamicSubscriber", "_%d" % r, bb + 2); bb += 2; r += 1
+                    for i in range(kd + 1):      # the OLD stream: kd+1 polls (the last one must find it ended)
+                        body += consume_block(bb, "_6", "MMapMetaFixedSubscriber", "_%d" % r, bb + 2); bb += 2; r += 1
+                    ret = "(" + ", ".join(["copy _8"] + ["move _%d" % (20 + i) for i in range(nres)]) + ")"
+                    extra_lets = "    let mut _5: (MMapMetaFixedSubscriber, MMapMetaDynamicSubscriber);\n    let mut _6: &MMapMetaFixedSubscriber;\n    let mut _7: &MMapMetaDynamicSubscriber;\n    let mut _8: usize;\n"
+                else:
+                    sub_fn = "subscribe_to_joined_old_and_new_events" if kind == "joined" else "subscribe_to_new_events_only"
+                    pre = """
+    bb0: {
+        _5 = @%s:%s(copy _1) -> [return: bb1, unwind continue];
+    }
+
+    bb1: {
+        _6 = &_5;
+        _8 = copy (_5.0: usize);
+        goto -> bb2;
+    }
+""" % (MM_FILE, sub_fn)
+                    bb = 2; r = 20
+                    for i in range(kc):
+                        body += consume_block(bb, "_6", "MMapMetaDynamicSubscriber", "_%d" % r, bb + 2); bb += 2; r += 1
+                    body += "\n    bb%d: {\n        _91 = __verif::await_others() -> [return: bb%d, unwind continue];\n    }\n" % (bb, bb + 1); bb += 1
+                    for i in range(kd):
+                        body += consume_block(bb, "_6", "MMapMetaDynamicSubscriber", "_%d" % r, bb + 2); bb += 2; r += 1
+                    ret = "(" + ", ".join(["copy _8"] + ["move _%d" % (20 + i) for i in range(nres)]) + ")"
+                    extra_lets = "    let mut _5: MMapMetaDynamicSubscriber;\n    let mut _6: &MMapMetaDynamicSubscriber;\n    let mut _8: usize;\n"
+                out.append("fn %s(_1: &Arc<MMapMeta>, _2: G, _3: E, _4: L) -> () {\n    let mut _0: ();\n%s%s    let mut _90: Option<&u32>;\n    let mut _91: ();\n%s%s\n    bb%d: {\n        _0 = %s;\n        return;\n    }\n}\n"
+                           % (name, extra_lets, lets, pre, body, bb, ret))
+    out.append("""fn __verif::opt_deref(_1: Option<&u32>) -> Option<u32> {
+    let mut _0: Option<u32>;
+    let mut _2: isize;
+    let mut _3: &u32;
+    let mut _4: u32;
+
+    bb0: {
+        _2 = discriminant(_1);
+        switchInt(move _2) -> [0: bb1, otherwise: bb2];
+    }
+
+    bb1: {
+        _0 = Option::<u32>::None;
+        return;
+    }
+
+    bb2: {
+        _3 = copy ((_1 as Some).0: &u32);
+        _4 = copy (*_3);
+        _0 = Option::<u32>::Some(copy _4);
+        return;
+    }
+}
+""")
+    return "\n".join(out)
+
+
+PRELUDE += _log_helpers()
+
+
+def log_world(ctx, CAP):
+    consts = {}
+    types = {"SlotType": "u32", "ItemType": "u32", "GetterReturnType": "&u32"}
+    w = World(ctx.index, ctx.type_files, consts, types)
+    mf = {nm: i for i, nm in enumerate(layout.struct_fields(MM_FILE, "MMapMeta"))}
+    cfid = {nm: i for i, nm in enumerate(layout.struct_fields(MM_FILE, "MMapContents"))}
+    u64 = z3.BitVecSort(64)
+    w.decl("mm", (mf["mmap_contents"],), "frozen", None, value=Ptr("mc"))
+    w.decl("mm", (mf["buffer"],), "frozen", None, value=Ptr("mc", (cfid["first_buffer_element"],)))
+    w.decl("mc", (cfid["publisher_tail"],), "atomic", u64, BV(64, 0))
+    w.decl("mc", (cfid["consumer_tail"],), "atomic", u64, BV(64, 0))
+    w.decl("mc", (cfid["slice_length"],), "atomic", u64, BV(64, CAP))
+    w.decl("mc", (cfid["first_buffer_element"],), "array", z3.BitVecSort(32), [BV(32, POISON + j) for j in range(CAP)], n=CAP)
+    return w, Ptr("mm"), cfid
+
+
+def log_query(ctx, name, CAP, publishers, listeners, timeout_s, slack=2):
+    """publishers: per publisher thread the number of publish_movable() calls; listeners: list of (kind, kc) with kind in
+    'joined' | 'newonly' | 'split' and kc = consumes made concurrently with the publishers (then each listener waits for the
+    publishers to return and drains)."""
+    w, mm, cfid = log_world(ctx, CAP)
+    it = w.interp()
+    f_pub = [f for f in ctx.index.by_method.get("publish_movable", []) if f.file and MM_FILE in f.file]
+    if len(f_pub) != 1: raise EncodingError("MMapMeta::publish_movable not found")
+    mlog = "src/multi/channels/reference/mmap_log.rs"
+    cons_fn = [f for f in ctx.index.by_method.get("consume", []) if f.file and mlog in f.file]
+    if len(cons_fn) != 1: raise EncodingError("MmapLog::consume not found")
+    clo = sorted([x for x in ctx.index.closures.values() if x.name.startswith(cons_fn[0].name + "::{closure#")], key=lambda x: x.name)
+    if len(clo) < 3: raise EncodingError("closures of MmapLog::consume not found")
+    getter, report_empty, report_len = [Agg("closure", [], c_) for c_ in clo[:3]]      # |slot| &*slot, || false, |_len| {}
+    graphs = []; sent = []
+    total = sum(publishers)
+    for t, cnt in enumerate(publishers):
+        vs = [w.sym("v%d_%d" % (t, j)) for j in range(cnt)]; sent.append(vs)
+        graphs.append(build_thread(it, t, [(f_pub[0], [mm, v], "publish") for v in vs], w.mem))
+    P = len(publishers)
+    kd = total
+    if kd < 2: raise EncodingError("log queries need at least 2 events")
+    for i, (kind, kc) in enumerate(listeners):
+        h = ctx.helper("log_%s_%d_%d" % (kind, kc, kd))
+        graphs.append(build_thread(it, P + i, [(h, [mm, getter, report_empty, report_len], "listen:" + kind)], w.mem))
+    S = sum(g.step_budget() for g in graphs) + slack
+    b = BMC(graphs, w.mem, S, {"await_threads": list(range(P))})
+    S = b.S
+    allv = [v for vs in sent for v in vs]
+    cons = [allv[i] != allv[j2] for i in range(len(allv)) for j2 in range(i + 1, len(allv))]
+    for v in allv: cons.append(z3.And(z3.UGE(v, BV(32, 0x1000)), z3.ULT(v, BV(32, POISON))))
+    mv = b.memv[S]
+    n = mv[("mc", (cfid["consumer_tail"],))]
+    buf = mv[("mc", (cfid["first_buffer_element"],))]
+    def at(idx64):
+        e = buf[-1]
+        for j in reversed(range(len(buf) - 1)): e = z3.If(idx64 == j, buf[j], e)
+        return e
+    good = [n == BV(64, total), mv[("mc", (cfid["publisher_tail"],))] == BV(64, total)]
+    # the log holds every published value exactly once, each publisher's values in its send order
+    for v in allv: good.append(z3.Sum([z3.If(buf[j] == v, BV(8, 1), BV(8, 0)) for j in range(total)]) == 1)
+    for vs in sent:
+        for x in range(len(vs) - 1):
+            good.append(z3.Or([z3.And(buf[j] == vs[x], buf[k2] == vs[x + 1]) for j in range(total) for k2 in range(j + 1, total)]))
+    def in_order_from(R, start, stop):
+        """the Some results of R, in order, are exactly log[start..stop) (start/stop 64-bit terms)"""
+        c = start; conds = []
+        for some, val in R:
+            conds.append(z3.Implies(some, z3.And(z3.ULT(c, stop), val == at(c))))
+            c = z3.If(some, c + 1, c)
+        conds.append(c == stop)
+        return z3.And(conds)
+    for i, (kind, kc) in enumerate(listeners):
+        def ex(j, v, kind=kind, kc=kc):
+            d = {"t": v.fields[0]}
+            for x in range(1, len(v.fields)):
+                o = ex_option_u32(v.fields[x]); d["s%d" % x] = o["some"]; d["v%d" % x] = o["val"]
+            return d
+        r = b.results(P + i, ex)[0]
+        nres = (len(r) - 1) // 2
+        R = [(r["s%d" % x], r["v%d" % x]) for x in range(1, nres + 1)]
+        if kind == "joined":
+            good.append(in_order_from(R, BV(64, 0), n))
+        elif kind == "newonly":
+            good.append(z3.ULE(r["t"], n)); good.append(in_order_from(R, r["t"], n))
+        else:
+            T = r["t"]; good.append(z3.ULE(T, n))
+            Rnew, Rold = R[:kc + kd], R[kc + kd:]
+            good.append(in_order_from(Rnew, T, n))            # the new stream: exactly the events from the split point on
+            good.append(in_order_from(Rold, BV(64, 0), T))    # the old stream: exactly the events before it ...
+            good.append(z3.Not(Rold[-1][0]))                  # ... and then it has ended
+    meta = {"threads": ["%d: %d x publish_movable" % (t, c) for t, c in enumerate(publishers)] + ["%d: %s listener: subscribe, %d concurrent consume, wait for the publishers, drain" % (P + i, k_, kc) for i, (k_, kc) in enumerate(listeners)],
+            "oracle": "the log ends up holding every published value exactly once, each publisher's values in its send order; a joined listener yields log[0..n) in order; a new-only listener log[T..n); a split pair: old yields log[0..T) and then ends, new yields log[T..n) -- nothing missing, nothing twice; yielded values equal the final log content (references stay valid and unchanged)",
+            "bounds": "MMapMeta<u32> with %d slots (file and mapping not modelled: they only provide the memory), steps<=%d, payloads distinct symbolic u32" % (CAP, S)}
+    violation = cons + [z3.Or(z3.And(b.all_done(), z3.Not(z3.And(good))), b.any_panic(), b.err[S])]
+    witness = cons + [b.all_done()]
+    meta["functions"] = sorted(set(x.split(">::")[-1] + " @" + (re.search(r"impl at (src/[^:]*)", x).group(1) if "impl at" in x else "") for x in it.functions_used))
+    meta["intrinsics"] = sorted(it.intrinsics_used)
+    rec, model = solve(name, b, violation, witness, timeout_s, ctx.workdir, meta)
+    if model is not None:
+        import replay
+        rec["trace"] = b.decode_schedule(model)
+        inp = {nm: model.eval(v, model_completion=True).as_long() for nm, v in w.inputs.items()}
+        rec["inputs"] = inp
+        progs = [["send:%d" % inp["v%d_%d" % (t, j)] for j in range(c)] for t, c in enumerate(publishers)]
+        progs += [["listen_%s:%d" % (k_, kc * 16 + kd)] for (k_, kc) in listeners]
+        segs = replay.segments_from_trace(rec["trace"])
+        sent_vals = [[inp["v%d_%d" % (t, j)] for j in range(c)] for t, c in enumerate(publishers)]
+        def symptom(h):
+            if h["panics"]: return "panic: " + h["panics"][0]
+            if h["stuck"] or h["timeout"]: return None
+            logv = None
+            for e in h["events"]:
+                if e["op"] == "final_log": logv = [int(x) for x in e["res"]]
+            if logv is None: return None
+            flat = [v for vs in sent_vals for v in vs]
+            if sorted(logv) != sorted(flat): return "the log does not hold exactly the published events: %s" % logv
+            for e in h["events"]:
+                if not e["op"].startswith("listen_"): continue
+                res = e["res"]          # T <new...> | <old...>
+                T = int(res[0]); rest = res[1:]
+                if "|" in rest:
+                    k = rest.index("|"); newv = [int(x) for x in rest[:k]]; oldv = [int(x) for x in rest[k + 1:]]
+                    if oldv != logv[:T]: return "split at %d: the OLD stream yielded %s, the log before the split point is %s" % (T, oldv, logv[:T])
+                    if newv != logv[T:]: return "split at %d: the NEW stream yielded %s, the log from the split point on is %s (events lost or repeated between old and new)" % (T, newv, logv[T:])
+                else:
+                    got = [int(x) for x in rest]
+                    if got != logv[T:]: return "listener (%s) starting at %d yielded %s, the log from there on is %s" % (e["op"], T, got, logv[T:])
+            return None
+        found, why, tried = replay.search("MmapMeta:%d" % CAP, CAP, [0], [], progs, [], segs, symptom, max_runs=250)
+        rec["native_runs"] = tried
+        if found: rec.update(verdict="violation", symptom=found["symptom"], replayed=True, native_history=found["history"].get("events", []), native_segments=found["segments"])
+        else: rec.update(verdict="inconclusive", why="model counterexample did not reproduce natively: %s" % why)
+    return rec
+
+
+def _c09_registry(add, tier, TO):
+    def q(name, qtier, CAP, publishers, listeners, slack=2):
+        add("C09", name, qtier, lambda ctx: log_query(ctx, name, CAP, publishers, listeners, TO, slack))
+    q("c09_split_vs_publisher", "quick", 4, [2], [("split", 0)])
+    q("c09_joined_vs_two_publishers", "quick", 4, [1, 1], [("joined", 1)])
+    q("c09_newonly_vs_publisher", "quick", 4, [2], [("newonly", 1)])
+    q("c09_split_vs_two_publishers", "quick", 4, [1, 1], [("split", 1)])
+    q("c09_joined_and_split", "quick", 4, [2], [("joined", 0), ("split", 0)])
+    q("c09_split_vs_three_events", "quick", 4, [2, 1], [("split", 0)])
+    q("c09_split1_vs_three_events", "thorough", 4, [2, 1], [("split", 1)])
+    q("c09_three_publishers_joined", "thorough", 4, [1, 1, 1], [("joined", 1)])
+    q("c09_two_splits", "thorough", 4, [2], [("split", 0), ("split", 1)])
+    q("c09_split_and_newonly_vs_two_publishers", "thorough", 4, [1, 1], [("split", 0), ("newonly", 1)])
+
+
+EXTRA_REGISTRIES = [("C13", _c13_registry), ("C14", _c14_registry), ("C08", _c08_registry), ("C18", _c18_registry), ("C19", _c19_registry), ("C16", _c16_registry), ("C04", _c04_registry), ("C05", _c05_registry), ("C07", _c07_registry), ("C03", _c03_registry), ("C09", _c09_registry)]
